@@ -2,32 +2,36 @@
     the containers, base lists, value store and dependency listings mention.
     Code modelled (read line by line):
       core/base.py:192-193,296-311,599-600  Impl.on_delete / NullImpl / set_null_impl / _is_valid
-      core/space.py:1241-1257    del_all_itemspaces / clear_itemspace_at / _del_itemspace
-      core/space.py:1259-1327    get_itemspace / on_eval_formula (dynamic_cache: a surviving
+      core/space.py:1244-1260    del_all_itemspaces / clear_itemspace_at / _del_itemspace
+      core/space.py:1262-1330    get_itemspace / on_eval_formula (dynamic_cache: a surviving
                                  interface is re-attached to a re-created instance of the same key)
-      core/space.py:1544-1548    BaseSpaceImpl.on_delete        (kills cells only: D14)
-      core/space.py:1558-1573    DynamicBase.on_namespace_change / clear_subs_rootitems
-      core/space.py:1765-1781    UserSpaceImpl.del_attr
-      core/space.py:1836-1887    on_inherit / on_del_cells
-      core/space.py:1977-2066,2126-2160  DynamicSpaceImpl / ItemSpaceImpl construction and on_delete
+      core/space.py:1547-1553    BaseSpaceImpl.on_delete        (its ItemSpaces, its cells with their values)
+      core/space.py:1556-1583    DynamicBase.on_namespace_change / clear_subs_rootitems / on_delete
+      core/space.py:1775-1791    UserSpaceImpl.del_attr
+      core/space.py:1846-1902    on_inherit (ends with DynamicBase.on_namespace_change) / on_del_cells
+      core/space.py:1980-2081,2129-2163  DynamicSpaceImpl / ItemSpaceImpl construction and on_delete
       core/parent.py:953-956     EditableParentImpl.on_del_space
-      core/model.py:57-140,758-778   TraceGraph / clear_with_descs / clear_obj
-      core/model.py:985-992      ModelImpl.del_attr
-      core/model.py:1344-1392    SpaceManager.del_cells / new_cells
-      core/model.py:1595-1794    SpaceUpdater.new_space / add_bases / remove_bases / del_defined_space
-      core/cells.py:681-687,714-719,822-835  on_namespace_change / on_inherit / clearing
+      core/model.py:57-140,761-781   TraceGraph / clear_with_descs / clear_obj
+      core/model.py:989-996      ModelImpl.del_attr
+      core/model.py:1351-1399    SpaceManager.del_cells / new_cells
+      core/model.py:1559-1801    SpaceUpdater.new_space / add_bases / remove_bases / del_defined_space
+      core/cells.py:682-688,715-720,831-844  on_namespace_change / on_inherit / clearing
+    (line numbers: /repo at ddd7fb8)
 
     IDEAL model (harness/README.md).  Every object ever created has a unique
     [uid]; a handle is a uid.  A deletion computes the set K of objects that
     have to die - the deleted object, everything contained in it, every derived
     cells left without a definer, every ItemSpace (with its contents) built
-    from a space whose members changed - and [purge]s K: K leaves the set of
+    from a space whose members changed or that was re-inherited - and [purge]s K: K leaves the set of
     live objects, every container, every base list and the value store (a value
     records the cells it was computed from, transitively: [v_deps]).
     Where the pinned tree deviates (C13a, C13e, D3 in findings.d/C13.txt) the model
     does what the code does in all the non-defective cases (D14, C13b, C13c were
     repaired in /repo: 9ebab50, 76f1b96 - a namespace change of a space discards
-    every ItemSpace that holds a dynamic copy of it).
+    every ItemSpace that holds a dynamic copy of it; 2a94503 - so does the
+    deletion of the space; a66156d - and so does EVERY re-inheritance pass
+    [on_inherit] over a space, whether or not its members change and whether or
+    not its lazy namespace had been evaluated: [inherit_roots]).
 
     Vocabulary kept out on purpose: references other than model-level
     references to spaces, renaming, input values, uncached cells,
@@ -321,6 +325,14 @@ Definition dyn_roots (st : state) (T : uid) : list uid :=
                         && match lookupN d (st_src st) with Some s => N.eqb s T | None => false end
                      then root_of st d else []) (st_alive st).
 
+(** [UserSpaceImpl.on_inherit] ends with [DynamicBase.on_namespace_change]
+    (a66156d): every space a re-inheritance pass visits - the edited space and
+    its sub spaces, after add_bases / remove_bases / del of a cells / del of a
+    base space - loses its own ItemSpaces and every ItemSpace that holds a copy
+    of it, unconditionally.  Computed on the state before the pass. *)
+Definition inherit_roots (st : state) (visited : list uid) : list uid :=
+  flat_map (dyn_roots st) visited.
+
 (** the namespace of the spaces in Ts changed because members were created:
     their cells lose their values; the given ItemSpaces are discarded *)
 Definition ns_change (st : state) (Ts items : list uid) : state :=
@@ -527,24 +539,26 @@ Definition step_get_item (st : state) (s : uid) (k : Z) : state * out :=
        end.
 
 (** [on_inherit] (creation part) over the visited spaces; the spaces that get
-    new members have their namespace changed *)
+    new members have their namespace changed (their cells lose their values;
+    the ItemSpaces that held copies of the visited spaces were discarded by
+    the caller: [inherit_roots]) *)
 Definition create_derived (st : state) (visited : list uid) : state :=
   let changed := filter (fun T => match missing st T with [] => false | _ => true end) visited in
   let st1 := fold_left derive_space visited st in
-  ns_change st1 changed (flat_map (dyn_roots st1) changed).
+  ns_change st1 changed [].
 
 Definition step_del_cells (st : state) (s c : uid) : state * out :=
   if negb (is_defined st c) then (st, ORejected)     (* "cannot delete derived" *)
   else
     let visited := s :: subs_of st s in
     let st1 := clear_derived (purge (under_set st [c]) st) visited in
-    (create_derived (settle st1 [s] (dyn_roots st s)) visited, ODone).
+    (create_derived (settle st1 [s] (inherit_roots st visited)) visited, ODone).
 
 Definition step_del_space (st : state) (p x : uid) : state * out :=
   let K0 := under_set st [x] in
   let visited := flat_map (subs_of st) (filter (is_kind st KSpace) K0) in
   let st1 := clear_derived (purge K0 st) visited in
-  (settle st1 (if is_kind st KSpace p then [p] else []) (dyn_roots st x), ODone).
+  (settle st1 (if is_kind st KSpace p then [p] else []) (dyn_roots st x ++ inherit_roots st visited)%list, ODone).
 
 Definition step_del_attr (st : state) (o : uid) (name : string) : state * out :=
   match kind_of st o with
@@ -575,7 +589,7 @@ Definition step_add_bases (st : state) (s : uid) (bs : list uid) : state * out :
   else
     let st1 := upd_cont st s (with_bases (dedupN (c_bases (get_cont st s) ++ bs))) in
     let visited := s :: subs_of st1 s in
-    (create_derived (clear_derived st1 visited) visited, ODone).
+    (create_derived (discard_items (clear_derived st1 visited) (inherit_roots st visited)) visited, ODone).
 
 Definition step_remove_bases (st : state) (s : uid) (bs : list uid) : state * out :=
   if negb (is_kind st KSpace s) then (st, ORejected)
@@ -583,7 +597,7 @@ Definition step_remove_bases (st : state) (s : uid) (bs : list uid) : state * ou
   else
     let visited := s :: subs_of st s in
     let st1 := upd_cont st s (with_bases (filter (fun b => negb (memN b bs)) (c_bases (get_cont st s)))) in
-    (settle (clear_derived st1 visited) [] [], ODone).
+    (settle (clear_derived st1 visited) [] (inherit_roots st visited), ODone).
 
 Definition step_set_params (st : state) (s : uid) (b : bool) : state * out :=
   if negb (is_kind st KSpace s) then (st, ORejected)
